@@ -201,8 +201,8 @@ impl<V: View> View for Frame<V> {
         self.view.layout(ctx, ct, child_layout.view_mut())?;
         child_layout.set_position(Position::new(1, 1));
         let size = Size {
-            height: child_layout.size().height + 2,
-            width: child_layout.size().width + 2,
+            height: child_layout.size().height.saturating_add(2),
+            width: child_layout.size().width.saturating_add(2),
         };
         *layout = Layout::new().with_size(size);
         Ok(())
